@@ -20,6 +20,7 @@ import CtyModel.Lemmas.UnifyTyLaws
 import CtyModel.Lemmas.UnifyProps
 import CtyModel.Lemmas.UnifyNoPanic
 import CtyModel.Lemmas.UnifyTopo
+import CtyModel.Lemmas.UnifyUnsafe
 namespace CtyModel
 namespace C09
 open Convert Ty Unify
@@ -510,6 +511,80 @@ theorem sort_cycle_hides_candidate :
 
 example : (sortVisited [.dyn, .list .number, .set .string, .list .string]) = [3, 1, 2, 0] := by decide
 example : (sortVisited [.dyn, .list .number, .set .string, .list .string]).length = 4 := by decide
+
+/-! ## Unsafe unification succeeds whenever safe unification does -/
+
+/-- Full statement of the clause "unsafe unification succeeds whenever safe unification
+… does", for ANY list of types: FALSE of the code — see `unsafe_of_safe_counterexample`
+(the witness has a placeholder; the clause of the property is about placeholder-free
+types). -/
+def UnsafeOfSafe : Prop :=
+  ∀ (fuel : Nat) (types : List Ty) (t : Ty) (cs : Convs),
+    unify (Env.std Env.simple) fuel types = .ok (some (t, cs)) →
+    ∃ t' cs', unifyUnsafe (Env.std Env.simple) fuel types = .ok (some (t', cs'))
+
+/-- The heart of the clause — the preference loop, any environment, types of any depth:
+where the safe loop settles on a placeholder-free type (every input `Equals` it or has a
+SAFE conversion to it), the unsafe loop settles on a type too — that one or one
+earlier in the preference order. -/
+theorem unsafe_of_safe_general (E : Env) (types : List Ty) (hne : types ≠ []) (t : Ty) (cs : Convs)
+    (ht : t.hasDyn = false) (h : general E false types = .ok (some (t, cs))) :
+    ∃ t' cs', general E true types = .ok (some (t', cs')) :=
+  general_unsafe_of_safe E types hne ht h
+
+/-- Hence `UnifyUnsafe` succeeds whenever `Unify` does for every list whose kinds send
+`unify` straight to its preference loop (`generalKinds`: not all maps / lists / sets /
+objects / tuples, no map-with-objects or list-with-tuples mixture, not objects with
+tuples — e.g. primitives, sets with lists, collections with primitives), for a
+placeholder-free result, types of any depth, any environment.  (The paths through
+unifyCollectionTypes / unifyObjectTypes / unifyTupleTypes re-enter `unify` on element /
+attribute types; for those the harness searches for a failing input on every run —
+all lists of ≤ 3 types of size ≤ 2 and random deeper ones — and has found none without a
+placeholder; not proved.) -/
+theorem unsafe_of_safe_partial (E : Env) (fuel : Nat) (types : List Ty) (t : Ty) (cs : Convs)
+    (hk : generalKinds types = true) (ht : t.hasDyn = false)
+    (h : unify E (fuel + 1) types = .ok (some (t, cs))) :
+    ∃ t' cs', unifyUnsafe E (fuel + 1) types = .ok (some (t', cs')) := by
+  have hne : types ≠ [] := by
+    intro e; subst e; simp [generalKinds] at hk
+  simp only [unify, unifyUnsafe, unifyF, unifyStep_generalKinds _ _ _ _ hk] at h ⊢
+  exact general_unsafe_of_safe E types hne ht h
+
+/-- the witness (C08's `safe_sub_unsafe_counterexample`, now on the full model):
+`Unify([map(tuple(string)), object{a: bool, m: dynamic, zz: string}])` is `map(dynamic)`,
+`UnifyUnsafe` of the same list is NilType — in unsafe mode the attribute types unify to
+`string` (dynamic → string is an unsafe conversion), after which `map(tuple(string))`
+and `map(string)` have no common type -/
+def unsafeWitnessTys : List Ty :=
+  [.map (.tuple [.string]), .object ["a", "m", "zz"] [.bool, .dyn, .string] [false, false, false]]
+
+theorem unsafe_of_safe_counterexample :
+    (unify (Env.std Env.simple) 3 unsafeWitnessTys).map (fun o => o.map (·.1)) = .ok (some (.map .dyn)) ∧
+    unifyUnsafe (Env.std Env.simple) 3 unsafeWitnessTys = .ok none ∧
+    unifyTyF 12 false unsafeWitnessTys = some (.map .dyn) ∧ unifyTyF 12 true unsafeWitnessTys = none :=
+  ⟨rfl, rfl, rfl, rfl⟩
+
+theorem unsafeOfSafe_false : ¬ UnsafeOfSafe := by
+  intro h
+  cases hu : unify (Env.std Env.simple) 3 unsafeWitnessTys with
+  | ok o =>
+    have h1 := unsafe_of_safe_counterexample.1
+    rw [hu] at h1
+    cases o with
+    | none => simp [Res.map] at h1
+    | some r =>
+      obtain ⟨t, cs⟩ := r
+      obtain ⟨t', cs', h2⟩ := h 3 unsafeWitnessTys t cs hu
+      rw [unsafe_of_safe_counterexample.2.1] at h2
+      simp at h2
+  | err _ => have h1 := unsafe_of_safe_counterexample.1; rw [hu] at h1; simp [Res.map] at h1
+  | panic _ => have h1 := unsafe_of_safe_counterexample.1; rw [hu] at h1; simp [Res.map] at h1
+  | unmodelled => have h1 := unsafe_of_safe_counterexample.1; rw [hu] at h1; simp [Res.map] at h1
+
+example : generalKinds [.set .string, .set .bool, .list .number] = true := by decide
+example : generalKinds [.string, .number, .bool] = true := by decide
+example : (unify (Env.std Env.simple) 2 [.set .bool, .list .string]).map (fun o => o.map (·.1)) =
+    .ok (some (.list .string)) := rfl
 
 end C09
 end CtyModel
